@@ -271,7 +271,7 @@ Ltac nrs :=
   first
   [ assumption
   | lazymatch goal with
-    | |- NR _ _ (publish ?h _ _) => change (NR _ _ h); nrs
+    | |- NR ?ex ?h0 (publish ?h _ _) => change (NR ex h0 h); nrs
     | |- NR _ _ (room_remove _ _ _) => apply nr_room_remove; nrs
     | |- NR _ _ (rs_set _ _ _) => apply nr_rs_set; nrs
     | |- NR _ _ (rs_del _ _) => apply nr_rs_del; nrs
